@@ -9,13 +9,14 @@ git -C /repo worktree add -q --detach $WT HEAD || exit 2
 cd $WT
 PKGDIR=$(python3 -c "import json;print(json.load(open('$SD/meta.json'))['demo_pkg_dir'])")
 DEMOCMD=$(python3 -c "import json;print(json.load(open('$SD/meta.json'))['demo_run_cmd'])")
-DEMO=$(ls $SD/zz_demo_*_test.go | head -1)
-cp $DEMO $PKGDIR/
+DEMO=$(ls $SD/zz_demo_*_test.go* | head -1)
+DEMOBASE=$(basename $DEMO .txt)
+cp $DEMO $PKGDIR/$DEMOBASE
 echo "== demo WITHOUT change (must pass)"; (eval "$DEMOCMD" 2>&1 | tail -3)
 git apply $SD/patch.diff || { echo "PATCH DOES NOT APPLY"; exit 2; }
 echo "== build"; go build ./... && echo build-ok
 echo "== demo WITH change (must fail)"; (eval "$DEMOCMD" 2>&1 | tail -5)
-rm -f $PKGDIR/$(basename $DEMO)
+rm -f $PKGDIR/$DEMOBASE
 echo "== existing tests of touched packages"
 PKGS=$(git diff --name-only | xargs -n1 dirname | sort -u | sed 's|^|./|')
 go test -vet=off -count=1 $PKGS . 2>&1 | tail -8
